@@ -16,7 +16,8 @@
 //! result = { "s0": snapshot, "p0": [enc per path], "pre"/"post"/"final": "same" | snapshot,
 //!            "probe_post": "same" | text (path expressions first seen from an importer vs unfrozen),
 //!            "imp_obs": [ "same" | [enc...] per importer creation that differed ],
-//!            "paths": [{"id","type","enc","names_u":[..],"names_f": "same"|[..]}],
+//!            "paths": [{"id","type","enc","names_u":[..],"names_f": "same"|[..],
+//!                       "st_u","st_f": is the path value the same object at every evaluation (unfrozen / from an importer)}],
 //!            "recs": [compact records], "n_u", "n_f", "rebuilds" }
 //!        | { "fatal": text }            (generator bug: module does not evaluate, path invalid, ...)
 //!        | { "freeze_err": text, ... }  (module could not be frozen)
@@ -201,6 +202,12 @@ fn c04_globals(builder: &mut GlobalsBuilder) {
         let s = enc(x, heap);
         TR.with(|t| t.borrow_mut().push(s));
         Ok(NoneType)
+    }
+
+    /// Object identity (`Value::ptr_eq`).  `same(<path expr>, <path expr>)` tells whether a path expression denotes a value
+    /// that is part of the module's state (the same object at every evaluation) or one made afresh by every evaluation.
+    fn same<'v>(#[starlark(require = pos)] a: Value<'v>, #[starlark(require = pos)] b: Value<'v>) -> anyhow::Result<bool> {
+        Ok(a.ptr_eq(b))
     }
 }
 
@@ -531,26 +538,31 @@ fn run_case(g: &Globals, c: &J) -> J {
     }
     let p0 = p0.out;
     // dir() and type() of every path, unfrozen
-    let info_items: Vec<String> = paths.iter().map(|p| format!("emit(dir({}))\nemit(type({}))", p.expr, p.expr)).collect();
+    let info_items: Vec<String> =
+        paths.iter().map(|p| format!("emit(dir({}))\nemit(type({}))\nemit(same({}, {}))", p.expr, p.expr, p.expr, p.expr)).collect();
     let info_u = match run_unfrozen(&cx, Some(&s0), &probe_def, Some(&p0), &info_items, &mut rebuilds) {
         Ok(r) => r,
         Err(e) => return json!({"fatal": e}),
     };
-    let parse_names = |o: &Outcome| -> Option<(Vec<String>, String)> {
-        if o.err.is_some() || o.tr.len() != 2 {
+    let parse_names = |o: &Outcome| -> Option<(Vec<String>, String, bool)> {
+        if o.err.is_some() || o.tr.len() != 3 {
             return None;
         }
         let names: Vec<String> = serde_json::from_str(&o.tr[0]).ok()?;
         let ty: String = serde_json::from_str(&o.tr[1]).ok()?;
-        Some((names, ty))
+        Some((names, ty, o.tr[2] == "True"))
     };
+    // is the value of the path expression the same object at every evaluation (unfrozen, in the module / frozen, from an importer)
+    let mut stable_u: Vec<bool> = Vec::new();
+    let mut stable_f: Vec<Option<bool>> = vec![None; paths.len()];
     let mut names_u: Vec<Vec<String>> = Vec::new();
     let mut types: Vec<String> = Vec::new();
     for (p, r) in paths.iter().zip(info_u.iter()) {
         match parse_names(&r.out) {
-            Some((n, t)) if !r.mutated => {
+            Some((n, t, st)) if !r.mutated => {
                 names_u.push(n);
                 types.push(t);
+                stable_u.push(st);
             }
             _ => return json!({"fatal": format!("dir/type of path {} failed: {}", p.expr, r.out.text())}),
         }
@@ -601,7 +613,7 @@ fn run_case(g: &Globals, c: &J) -> J {
         "s0": s0, "p0": p0.tr, "pre": same_or(&pre, &s0),
         "probe_pre": if ppre == json!(p0.text()) { json!("same") } else { ppre },
     });
-    let path_info = |names_f: Option<&Vec<Vec<String>>>| -> J {
+    let path_info = |names_f: Option<&Vec<Vec<String>>>, st_f: &Vec<Option<bool>>| -> J {
         J::Array(
             paths
                 .iter()
@@ -617,7 +629,8 @@ fn run_case(g: &Globals, c: &J) -> J {
                             }
                         }
                     };
-                    json!({"id": p.id, "type": types[i], "enc": p0.tr[i], "names_u": names_u[i], "names_f": nf})
+                    json!({"id": p.id, "type": types[i], "enc": p0.tr[i], "names_u": names_u[i], "names_f": nf,
+                           "st_u": stable_u[i], "st_f": if names_f.is_some() { json!(st_f[i]) } else { J::Null }})
                 })
                 .collect(),
         )
@@ -634,7 +647,7 @@ fn run_case(g: &Globals, c: &J) -> J {
         Ok(f) => f,
         Err(e) => {
             result["freeze_err"] = json!(e);
-            result["paths"] = path_info(None);
+            result["paths"] = path_info(None, &stable_f);
             result["recs"] = J::Array((0..usnips.len()).map(urec).collect());
             result["n_u"] = json!(usnips.len());
             return result;
@@ -694,7 +707,8 @@ fn run_case(g: &Globals, c: &J) -> J {
                 while i < paths.len() && n < chunk {
                     let o = run_src(&mut eval, g, "snip.star", &info_items[i]);
                     match parse_names(&o) {
-                        Some((nm, ty)) => {
+                        Some((nm, ty, st)) => {
+                            stable_f[i] = Some(st);
                             names_f[i] = nm;
                             if ty != types[i] {
                                 names_f[i].push(format!("<type:{}>", ty));
@@ -712,9 +726,14 @@ fn run_case(g: &Globals, c: &J) -> J {
             }
         }
     }
-    result["paths"] = path_info(Some(&names_f));
+    result["paths"] = path_info(Some(&names_f), &stable_f);
     let pf0 = pf0.unwrap_or_else(|| p0.clone());
     result["probe_post"] = if pf0 == p0 { json!("same") } else { json!(pf0.text()) };
+    if pf0 != p0 {
+        // per path: what an importer of the frozen module sees (the list stops at the first path expression that fails)
+        result["probe_post_tr"] = json!(pf0.tr);
+        result["probe_post_err"] = json!(pf0.err);
+    }
     // flatten the attempts
     struct Flat {
         imp: usize,
